@@ -43,6 +43,7 @@ type vfSCase struct {
 	fwl                   []string
 	perB, perK, perC      int // µs
 	init                  map[int]int64 // db -> offset already stored for rid
+	oth                   []string      // foreign records on the target: <db>:<run id>:<offset> (another id, possibly with rid as prefix)
 	raw                   [][][]byte
 	evs                   []vfSEv
 	cp, rid               string
@@ -117,6 +118,9 @@ func (c *vfSCase) opLine(tag int, ks []int) string {
 		in = append(in, fmt.Sprintf("%d:%d", d, c.init[d]))
 	}
 	fmt.Fprintf(&sb, " init=%s", join(in))
+	if len(c.oth) > 0 { // ignored by the model: records of other run ids must be invisible
+		fmt.Fprintf(&sb, " oth=%s", strings.Join(c.oth, ","))
+	}
 	var raws []string
 	for _, cmd := range c.raw {
 		var as []string
@@ -191,6 +195,11 @@ func vfSeedTarget(c *vfSCase) *vfdoubles.Target {
 	for db, off := range c.init {
 		// as checkpoint.SetCheckpoint writes it (end of a full sync / UpdateCheckpoint): with an mtime
 		tg.Seed(db, "hset", c.cp, c.rid+"_mtime", strconv.FormatInt(1700000000000000000+int64(db), 10), c.rid+"_runid", c.rid, c.rid+"_version", config.Version, c.rid+"_offset", strconv.FormatInt(off, 10))
+	}
+	for _, o := range c.oth {
+		f := strings.Split(o, ":")
+		db, _ := strconv.Atoi(f[0])
+		tg.Seed(db, "hset", c.cp, f[1]+"_mtime", "1700000000000000999", f[1]+"_runid", f[1], f[1]+"_version", config.Version, f[1]+"_offset", f[2])
 	}
 	return tg
 }
@@ -559,7 +568,8 @@ func vfGenCase(r *vfutil.Rand, idx int) *vfSCase {
 	c.bb = uint64(vfutil.Pick(r, []int{1, 40, 200, 1 << 30, 1 << 30}))
 	if r.Chance(1, 6) {
 		c.tdb = r.Intn(3)
-	} else if r.Chance(1, 3) {
+	}
+	if (c.tdb == -1 && r.Chance(1, 3)) || (c.tdb != -1 && r.Chance(1, 3)) { // also both set: TargetDb wins
 		c.dbMap = map[int]int{}
 		for i := 0; i < r.Range(1, 3); i++ {
 			c.dbMap[r.Intn(4)] = r.Intn(4)
@@ -579,7 +589,7 @@ func vfGenCase(r *vfutil.Rand, idx int) *vfSCase {
 	}
 	trip := vfutil.Pick(r, [][3]int{{3000000, 7001000, 11003000}, {1000000, 1501000, 2503000}, {2000000, 3001000, 5003000}, {500000, 30001000, 1203000}, {50001000, 1001000, 3503000}})
 	c.perB, c.perK, c.perC = trip[0], trip[1], trip[2]
-	c.start = int64(vfutil.Pick(r, []int{0, 1, 1000, 123456}))
+	c.start = vfutil.Pick(r, []int64{0, 1, 1000, 123456, 1000, 123456, 1<<31 - 60, 1<<32 - 25, 1 << 40, 1<<53 - 7})
 	// resumed-run flavour: start DB set, checkpoint already on the target
 	if r.Chance(1, 3) {
 		c.sdb = r.Intn(3)
@@ -589,6 +599,15 @@ func vfGenCase(r *vfutil.Rand, idx int) *vfSCase {
 		}
 	} else if r.Chance(1, 4) {
 		c.init = map[int]int64{0: c.start}
+	}
+	// records of OTHER run ids on the target: never this run's position. Ids have the same
+	// length as this run's (replication ids are 40 hex characters; GetCheckpoint matches hash
+	// fields by id PREFIX, so an id that is a proper prefix of another would be confused)
+	if r.Chance(1, 4) {
+		for i := r.Range(1, 2); i > 0; i-- {
+			id := vfutil.Pick(r, []string{"rid9", "rie" + c.rid[3:], "xid" + c.rid[3:], "Rid" + c.rid[3:]})
+			c.oth = append(c.oth, fmt.Sprintf("%d:%s:%d", r.Intn(3), id, c.start+int64(r.Range(1, 5000))))
+		}
 	}
 	// stream
 	keys := []string{"k1", "k2", "a", "tmp:1", "x9", "bl", "redis-gunyu-checkpoint", "{t}k", "\xff\xfe", ""}
@@ -651,7 +670,11 @@ func vfGenCase(r *vfutil.Rand, idx int) *vfSCase {
 			if r.Chance(1, 4) {
 				stallAfter[len(c.raw)] = true // the stream stalls right after this MULTI
 			}
-			for i := r.Intn(5); i > 0; i-- {
+			nTx := r.Intn(5)
+			if r.Chance(1, 10) { // longer than any batch count / some byte limits
+				nTx = r.Range(9, 25)
+			}
+			for i := nTx; i > 0; i-- {
 				if r.Chance(1, 5) { // a transaction touching several databases
 					c.raw = append(c.raw, [][]byte{[]byte("SELECT"), []byte(strconv.Itoa(r.Intn(4)))})
 				}
@@ -1085,6 +1108,7 @@ func vfParseCase(op string) *vfSCase {
 		o, _ := strconv.ParseInt(ab[1], 10, 64)
 		c.init[atoi(ab[0])] = o
 	}
+	c.oth = list(kv["oth"], ",")
 	for _, cmd := range list(kv["raw"], ";") {
 		var args [][]byte
 		for _, a := range strings.Split(cmd, ".") {
